@@ -332,6 +332,15 @@ def shapes_sweep(ck, br):
                 if 'panic' in r:
                     p = ck.write_replay('shape_%s_%s' % (pn, sn), {'rule': yaml, 'from_value': fv, 'native': r})
                     ck.violations.append((p, 'loading panics for shape %s at position %s: %s' % (sn, pn, r['panic'][:120])))
+    import templates
+    for nm, yaml in templates.limit_rules().items():
+        for fv in (False, True):
+            r = br.call(cmd='load', yaml=yaml, opts=None, from_value=fv)
+            n += 1
+            if 'panic' in r:
+                p = ck.write_replay('limit_' + ''.join(c if c.isalnum() else '_' for c in nm), {'rule': yaml, 'from_value': fv, 'native': r})
+                ck.violations.append((p, 'loading panics (%s): %s' % (nm, r['panic'][:120])))
+                break
     ck.extra['yaml_shape_loads_concrete'] = n
 
 
